@@ -75,6 +75,18 @@ type MessageBadArrayElem struct {
 
 func (*MessageBadArrayElem) GetID() uint32 { return 60006 }
 
+// MessageBadLate is malformed in its LAST field, after many good ones (the check of the struct takes a while)
+type MessageBadLate struct {
+	A1, A2, A3, A4, A5, A6, A7, A8         uint32
+	B1, B2, B3, B4, B5, B6, B7, B8         float32
+	C1, C2, C3, C4                         [4]uint16
+	S1, S2                                 string `mavlen:"20"`
+	D1, D2, D3, D4, D5, D6, D7, D8, D9, D0 int8
+	Z                                      bool
+}
+
+func (*MessageBadLate) GetID() uint32 { return 60020 }
+
 type MessageGoodOne struct{ A uint8 }
 
 func (*MessageGoodOne) GetID() uint32 { return 60010 }
@@ -172,6 +184,48 @@ func concurrentInits(rec *Rec, ix map[reflect.Type]int) {
 	}
 }
 
+// concurrentMalformed: the same malformed dialect initialised by four goroutines at the same instant, several rounds, each
+// into its own ReadWriter: every one of them must be refused (DINIT records).
+func concurrentMalformed(rec *Rec) {
+	cases := []struct {
+		name string
+		msgs []message.Message
+	}{
+		{"unsupported_type", append(append([]message.Message{}, findDialect("common").Messages[:5]...), &MessageBadType{})},
+		{"enum_wire_type_int16", []message.Message{&MessageGoodOne{}, &MessageBadEnumInt16{}}},
+		{"duplicate_id", []message.Message{&MessageGoodOne{}, &MessageGoodDup{}}},
+		{"malformed_in_its_last_field", []message.Message{&MessageGoodOne{}, &MessageBadLate{}}},
+	}
+	for _, c := range cases {
+		var defs []DefJ
+		for _, m := range c.msgs {
+			defs = append(defs, defOf(m))
+		}
+		for round := 0; round < 120; round++ {
+			oks := make([]bool, 4)
+			pans := make([]bool, 4)
+			start := make(chan struct{})
+			var wg sync.WaitGroup
+			for g := 0; g < 4; g++ {
+				wg.Add(1)
+				go func(g int) {
+					defer wg.Done()
+					<-start
+					_, oks[g], pans[g] = safeDialectInit(&dialect.Dialect{Version: 3, Messages: c.msgs})
+				}(g)
+			}
+			close(start)
+			wg.Wait()
+			for g := 0; g < 4; g++ {
+				if oks[g] || pans[g] || round == 0 {
+					rec.Put(M{"e": "DINIT", "case": "concurrent_" + c.name, "round": round, "goroutine": g, "defs": defs,
+						"init_ok": oks[g], "panic": pans[g]})
+				}
+			}
+		}
+	}
+}
+
 var namesakeCase = []message.Message{&MessageGoodOne{}, &inhouse.MessageHeartbeat{}}
 
 func cmdC17(o opts) {
@@ -199,6 +253,7 @@ func cmdC17(o opts) {
 		dialectRecord(rec, nd.Name, nd.D, ix)
 	}
 	concurrentInits(rec, ix)
+	concurrentMalformed(rec)
 	// an in-house dialect whose package and type names coincide with shipped ones (initialized after them)
 	dialectRecord(rec, "inhouse_common_after_shipped", inhouse.Dialect, ix)
 
@@ -273,6 +328,7 @@ func cmdC17(o opts) {
 		{"enum_wire_types_all_valid", []message.Message{&MessageUserEnums{}}},
 		{"malformed_last_of_many", append(append([]message.Message{}, com.Messages[:30]...), &MessageBadType{})},
 		{"empty", []message.Message{}},
+		{"malformed_in_its_last_field", []message.Message{&MessageGoodOne{}, &MessageBadLate{}}},
 		{"duplicate_id_above_16_bits", []message.Message{&MessageGoodOne{}, &MessageUserHighId{}, &MessageDupHigh{}}},
 		{"duplicate_top_id", []message.Message{&MessageDupTop{}, &MessageGoodOne{}, &MessageUserMaxId{}}},
 		{"duplicate_id_65536", []message.Message{&MessageDup65536A{}, &MessageDup65536B{}}},
